@@ -75,6 +75,9 @@ type Exec struct {
 	fresh      map[string]int
 	clockFloor *Term
 	spec    int // >0 while speculatively evaluating a pure region
+	watchObj map[*Object]*mutexGhost
+	watchMap map[*MapObj]*mutexGhost
+	watchOn  bool
 	// hooks
 	fnNames map[*ssa.Function]string
 }
